@@ -47,7 +47,7 @@ func innerNodes(t *tree.Tree) []*tree.Node {
 func H_C05_reroot() {
 	n := sxParam("n", 4)
 	t := genTree(n, 2, false)
-	decorate(t, lenAll, true)
+	decorate(t, lenAll, supAny)
 	in := innerNodes(t)
 	nr := in[sxChoose("newroot", len(in))]
 	before := splitsOf(t, lenAny0)
@@ -65,7 +65,7 @@ func H_C05_reroot() {
 func H_C05_unroot() {
 	n := sxParam("n", 4)
 	t := genTree(n, 2, false)
-	decorate(t, lenAll, true)
+	decorate(t, lenAll, supAny)
 	before := splitsOf(t, lenAny0)
 	dbefore := distOf(t, n, lenMetric0)
 	tips := tipSet(t)
@@ -81,7 +81,7 @@ func H_C05_unroot() {
 func H_C05_reorder() {
 	n := sxParam("n", 4)
 	t := genTree(n, 2, false)
-	decorate(t, lenAll, true)
+	decorate(t, lenAll, supAny)
 	before := splitsOf(t, lenAny0)
 	dbefore := distOf(t, n, lenMetric0)
 	tips := tipSet(t)
@@ -102,7 +102,7 @@ func H_C05_reorder() {
 func H_C05_outgroup() {
 	n := sxParam("n", 4)
 	t := genTree(n, 2, false)
-	decorate(t, lenAll, true)
+	decorate(t, lenAll, supAny)
 	full := uint64(1)<<uint(n) - 1
 	sub := uint64(sxChoose("outgroup", 1<<uint(n)))
 	remove := sxChoose("remove", 2) == 1
@@ -221,7 +221,7 @@ func H_C05_outgroup() {
 func H_C05_midpoint() {
 	n := sxParam("n", 4)
 	t := genTree(n, 2, false)
-	decorate(t, lenAll, false)
+	decorate(t, lenAll, supNone)
 	before := splitsOf(t, lenAny0)
 	dbefore := distOf(t, n, lenMetric0)
 	tips := tipSet(t)
